@@ -792,6 +792,27 @@ func dsTxHistory(c *CaseCtx, kind string, class string) {
 		g.M = run.M
 		run.CheckObs("after-commit")
 		run.Tx(g.ReadTx(6), false)
+		if r.Intn(4) == 0 && !run.Dead && !c.Violated() {
+			// several operations of this structure in ONE transaction, judged against the sequential model and the
+			// executable model of the recorded committed-view finding (C13): only a deviation that neither model
+			// reproduces is a violation here; half of them come from templates in which a later operation depends
+			// on what an earlier one of the same transaction did
+			g.M = run.M
+			var t2 TxSpec
+			if tpl := dsTemplate(g, kind); tpl != nil && r.Intn(2) == 0 {
+				t2 = TxSpec{Mode: "update", Ops: tpl}
+				c.Stat("multi_op_templates", 1)
+			} else {
+				g.MaxOps = 4
+				t2 = g.WriteTx(false)
+				g.MaxOps = 1
+			}
+			c.Stat("multi_op_transactions", 1)
+			if _, fatal := twoModelTx(run, t2, class, false); fatal {
+				break
+			}
+			g.M = run.M
+		}
 		if r.Intn(5) == 0 {
 			// the same kind of operation in a transaction that does not commit (fn error, Rollback, or a read-only
 			// transaction, where every mutator must be refused): the structure must be exactly as before
@@ -829,6 +850,100 @@ func dsTxHistory(c *CaseCtx, kind string, class string) {
 	if c.Case%50 == 0 {
 		c.Sample(map[string]interface{}{"config": cfg.String(), "mutators_used": ks, "transactions": run.NTx, "first_steps": firstLines(c.hist, 5)})
 	}
+}
+
+// dsTemplate builds a multi-operation transaction for one structure kind in which a later operation depends on
+// an earlier one of the same transaction.
+func dsTemplate(g *Gen, kind string) []Op {
+	r, b := g.R, g.bucket()
+	switch kind {
+	case "list":
+		key := g.pick(g.U.ListKeys)
+		l := g.M.L[b][string(key)]
+		g.ctr++
+		v := []byte("t" + strconv.Itoa(g.ctr)) // a value the committed list does not hold
+		push := Op{K: []string{"RPush", "LPush"}[r.Intn(2)], B: b, Key: key, Vals: [][]byte{v}}
+		switch r.Intn(4) {
+		case 0: // push a new value, then remove it again
+			cnt := []int{0, 1, -1}[r.Intn(3)]
+			ops := []Op{push}
+			if r.Intn(2) == 0 {
+				ops = append(ops, Op{K: []string{"RPush", "LPush"}[r.Intn(2)], B: b, Key: key, Vals: [][]byte{v}})
+			}
+			return append(ops, Op{K: "LRem", B: b, Key: key, I: cnt, Val: v})
+		case 1: // push, then overwrite the pushed slot
+			if push.K == "RPush" {
+				return []Op{push, {K: "LSet", B: b, Key: key, I: len(l), Val: []byte("set")}}
+			}
+			return []Op{push, {K: "LSet", B: b, Key: key, I: 0, Val: []byte("set")}}
+		case 2: // push, then trim to exactly the old extent
+			if len(l) == 0 {
+				return nil
+			}
+			if push.K == "RPush" {
+				return []Op{push, {K: "LTrim", B: b, Key: key, I: 0, J: len(l) - 1}}
+			}
+			return []Op{push, {K: "LTrim", B: b, Key: key, I: 1, J: len(l)}}
+		default: // pop then push the popped element back at the other end
+			if len(l) == 0 {
+				return nil
+			}
+			return []Op{{K: "LPop", B: b, Key: key}, {K: "RPush", B: b, Key: key, Vals: [][]byte{l[0]}}}
+		}
+	case "set":
+		// a member held by two sets: remove it from one, then move it there from the other
+		type loc struct{ b, k string }
+		where := map[string][]loc{}
+		for _, bb := range g.U.Buckets {
+			for _, k := range g.U.SetKeys {
+				for m := range g.M.S[bb][string(k)] {
+					where[m] = append(where[m], loc{bb, string(k)})
+				}
+			}
+		}
+		var ms []string
+		for m, ls := range where {
+			if len(ls) >= 2 {
+				ms = append(ms, m)
+			}
+		}
+		sort.Strings(ms)
+		if len(ms) == 0 {
+			// make one: add the same member to two sets (committed by this transaction)
+			m := g.member()
+			return []Op{{K: "SAdd", B: g.U.Buckets[0], Key: g.U.SetKeys[0], Vals: [][]byte{m}}, {K: "SAdd", B: g.U.Buckets[len(g.U.Buckets)-1], Key: g.U.SetKeys[1], Vals: [][]byte{m}}}
+		}
+		m := ms[r.Intn(len(ms))]
+		ls := where[m]
+		sort.Slice(ls, func(i, j int) bool { return ls[i].b+"/"+ls[i].k < ls[j].b+"/"+ls[j].k })
+		src, dst := ls[0], ls[1]
+		if r.Intn(2) == 0 {
+			src, dst = dst, src
+		}
+		first := Op{K: "SRem", B: dst.b, Key: []byte(dst.k), Vals: [][]byte{[]byte(m)}}
+		mv := Op{K: "SMove2", B: src.b, Key: []byte(src.k), B2: dst.b, Key2: []byte(dst.k), Val: []byte(m)}
+		if src.b == dst.b {
+			mv = Op{K: "SMove1", B: src.b, Key: []byte(src.k), Key2: []byte(dst.k), Val: []byte(m)}
+		}
+		return []Op{first, mv}
+	case "zset":
+		ns := g.M.zsorted(b)
+		if len(ns) == 0 {
+			return nil
+		}
+		x := ns[r.Intn(len(ns))]
+		back := Op{K: "ZAdd", B: b, Key: []byte(x.K), F: x.S, Val: x.V} // exactly the committed score and value
+		switch r.Intn(3) {
+		case 0:
+			return []Op{{K: "ZAdd", B: b, Key: []byte(x.K), F: x.S + 7, Val: []byte("tmp")}, back}
+		case 1:
+			return []Op{{K: "ZRem", B: b, Key: []byte(x.K)}, back}
+		default:
+			first := ns[0]
+			return []Op{{K: "ZPopMin", B: b}, {K: "ZAdd", B: b, Key: []byte(first.K), F: first.S, Val: first.V}}
+		}
+	}
+	return nil
 }
 
 // ===================================================================== registration
